@@ -672,7 +672,7 @@ func explicitPrefix(e *Env, fv *foundViolation) []workerlib.ExplicitRun {
 		if to := ses.From + fv.V.RunIndex/2 + 1; to < ses.To {
 			ses.To = to
 		}
-	case "longpairs":
+	case "longpairs", "solo":
 		if to := ses.From + fv.V.RunIndex + 1; to < ses.To {
 			ses.To = to
 		}
